@@ -221,9 +221,19 @@ func decoy(o Op) (Op, bool) {
 // fields are first set to a different value and then overwritten (a packet "can
 // be built" by any setter sequence; the final state is what counts).
 func Build(a *ref.AP, t *sim.Tape) (mq.Packet, []Op, error) {
-	p := New(a.Type)
+	return buildOn(New(a.Type), a, t, true)
+}
+
+// BuildZero is Build on a zero-value literal (&mq.Publish{} etc.) instead of
+// the constructor's value. What such a packet encodes to is not defined by the
+// round-trip properties; it is a legitimate receiver of read-only operations.
+func BuildZero(a *ref.AP, t *sim.Tape) (mq.Packet, []Op, error) {
+	return buildOn(Zero(a.Type), a, t, false)
+}
+
+func buildOn(p mq.Packet, a *ref.AP, t *sim.Tape, ctor bool) (mq.Packet, []Op, error) {
 	ops := OpsFor(a)
-	if t != nil && a.Type == ref.Publish && t.Bool(1, 4) {
+	if ctor && t != nil && a.Type == ref.Publish && t.Bool(1, 4) {
 		// the convenience constructor mq.Pub(qos, topic, payload) instead of
 		// NewPublish + three setters
 		p = mq.Pub(a.QoS(), string(a.Topic), string(a.Payload))
@@ -284,6 +294,13 @@ func Build(a *ref.AP, t *sim.Tape) (mq.Packet, []Op, error) {
 	// In one build out of three, read-only operations are interleaved with the
 	// setter calls (a program logs a packet with String(), sizes it, or even
 	// writes it, and then keeps filling it in): by C11 they must not matter.
+	if t != nil && t.Bool(1, 3) {
+		// byte-slice arguments out of one arena, equal values stored once
+		ar := NewByteArena()
+		for i := range ops {
+			ar.Place(&ops[i])
+		}
+	}
 	peek := t != nil && t.Bool(1, 3)
 	for _, o := range ops {
 		if err := Apply(p, o); err != nil {
